@@ -156,7 +156,9 @@ psgssv(int_t nprocs, SuperMatrix *A, int_t *perm_c, int_t *perm_r,
 	      (A->Stype != SLU_NC && A->Stype != SLU_NR) ||
 	      A->Dtype != SLU_S || A->Mtype != SLU_GE )
 	*info = -2;
-    else if ( B->ncol < 0 || Bstore->lda < SUPERLU_MAX(1, A->nrow) )*info = -7;
+    else if ( B->ncol < 0 || Bstore->lda < SUPERLU_MAX(1, A->nrow) ||
+	      B->Stype != SLU_DN || B->Dtype != SLU_S || B->Mtype != SLU_GE )
+	*info = -7;
     if ( *info != 0 ) {
         i = -(*info);
 	xerbla_("psgssv", &i);
